@@ -294,8 +294,10 @@ class SyntaxCheckInstance(Visitor):
     def _visit_for(self, stmt: ForStmt, ctx: _Ctx):
         env = ctx.env
         self._visit_expr(stmt.iterable, ctx)
-        env = self._visit_binding(stmt.target, env)
-        body_env = self._visit_block(stmt.body, _Ctx(env, False))
+        loop_env = self._visit_binding(stmt.target, env)
+        body_env = self._visit_block(stmt.body, _Ctx(loop_env, False))
+        # the loop may run zero times: the target (like any name introduced
+        # in the body) is only bound after the loop if it was bound before
         return env.merge(body_env)
 
     def _visit_context(self, stmt: ContextStmt, ctx: _Ctx):
